@@ -193,7 +193,19 @@ func ParseSelect(statement *sqlparser.Select) (logical.Node, *OutputOptions, err
 
 		root = logical.NewGroupBy(root, key, keyFieldNames, aggregateExprs, nonKeyAggregates, aggregateFieldNames, triggers)
 		root = logical.NewMap(outputExprs, outputAliases, make([]string, len(outputExprs)), make([]bool, len(outputExprs)), make([]logical.Expression, len(outputExprs)), make([]bool, len(outputExprs)), root)
+
+		if statement.Having != nil {
+			// HAVING filters the grouped rows; it sees the fields of the select list.
+			havingFormula, err := ParseExpression(statement.Having.Expr)
+			if err != nil {
+				return nil, nil, errors.Wrap(err, "couldn't parse having expression")
+			}
+			root = logical.NewFilter(havingFormula, root)
+		}
 	} else {
+		if statement.Having != nil {
+			return nil, nil, errors.Errorf("HAVING needs an aggregate in the select list")
+		}
 		expressions := make([]logical.Expression, len(statement.SelectExprs))
 		starQualifiers := make([]string, len(statement.SelectExprs))
 		isStar := make([]bool, len(statement.SelectExprs))
